@@ -42,6 +42,7 @@ fn cfg_for(tier: Tier) -> Cfg {
         Tier::Quick => Cfg {
             dup: true,
             deliver_return: false,
+            deliver_return_families: vec!["SEQ".into(), "ERR".into()],
             wall_cap_s: 60.0,
             state_cap: 60_000,
             deadline: Some(now + std::time::Duration::from_secs_f64(budget(150.0))),
